@@ -2,7 +2,7 @@
 import ast
 import z3
 from .values import *
-from .engine import HObj, HList, HDict, key_of, Frame
+from .engine import HObj, HList, HSeqList, HDict, key_of, Frame
 from . import builtins_ as B
 from .exprs import _conc_int
 
@@ -48,6 +48,16 @@ class StmtMixin:
 
     def do_yield(self, val, node):
         fr = self.frame
+        if getattr(fr, 'cm_body', None) is not None:
+            # @contextmanager protocol: the with-body runs at the yield point, in the caller's frame; an exception of the
+            # body is thrown into the generator here (contextlib semantics)
+            body, fr.cm_body = fr.cm_body, None
+            self.st.frames.pop()
+            try:
+                self.exec_block(body)
+            finally:
+                self.st.frames.append(fr)
+            return
         if hasattr(fr, 'yields'):
             fr.yields.append(val)
             return
@@ -194,10 +204,100 @@ class StmtMixin:
             raise PyRaise('AssertionError')
 
     def ex_If(self, s):
-        if self.branch(self.truth(self.ev(s.test))):
+        cond = self.truth(self.ev(s.test))
+        if (self.cur_contract or {}).get('merge_ifs') and self.mergeable(s):
+            c = z3.simplify(cond)
+            if not (z3.is_true(c) or z3.is_false(c)) and not self.st.oracle.replaying_forced_or_choice_pending():
+                if self.try_merge(s, c):
+                    return
+        if self.branch(cond):
             self.exec_block(s.body)
         else:
             self.exec_block(s.orelse)
+
+    def mergeable(self, s):
+        def simple(block):
+            return len(block) == 1 and isinstance(block[0], (ast.Assign, ast.AugAssign)) and \
+                isinstance(block[0].targets[0] if isinstance(block[0], ast.Assign) else block[0].target, ast.Name)
+        if not (simple(s.body) and simple(s.orelse)):
+            return False
+        t1 = s.body[0].targets[0].id if isinstance(s.body[0], ast.Assign) else s.body[0].target.id
+        t2 = s.orelse[0].targets[0].id if isinstance(s.orelse[0], ast.Assign) else s.orelse[0].target.id
+        return t1 == t2
+
+    def try_merge(self, s, c):
+        """if-then-else state merging for two single assignments to the same local: both arms are evaluated under their guard,
+        the results are joined with ite; facts assumed inside an arm are kept guarded.  Aborted (and redone by path splitting)
+        if an arm needs a decision, raises, or touches the heap."""
+        st = self.st
+        name = s.body[0].targets[0].id if isinstance(s.body[0], ast.Assign) else s.body[0].target.id
+        orc = st.oracle
+        mark = (orc.pos, len(orc.prefix), len(orc.new))
+        heap0 = st.snapshot_heap()
+        env0 = dict(self.frame.env)
+        pc0 = list(st.pc)
+        ghost0 = dict(st.ghost)
+        nobl = len(st.obligations)
+        results = []
+
+        def rollback():
+            st.heap = heap0
+            self.frame.env.clear()
+            self.frame.env.update(env0)
+            st.pc[:] = pc0
+            st.ghost = ghost0
+            del st.obligations[nobl:]
+        for guard, block in ((c, s.body), (z3.Not(c), s.orelse)):
+            st.pc.append(guard)
+            try:
+                self.exec_block(block)
+            except (PyRaise, PathEnd, ReturnSig, BreakSig, ContinueSig, Unsupported):
+                rollback()
+                return False
+            if (orc.pos, len(orc.prefix), len(orc.new)) != mark or len(st.obligations) != nobl:
+                rollback()
+                return False
+            # heap must be unchanged (same field values by identity)
+            for i, h in st.heap.items():
+                h0 = heap0.get(i)
+                if h0 is None or type(h0) is not type(h):
+                    rollback()
+                    return False
+            facts = st.pc[len(pc0) + 1:]
+            results.append((guard, self.frame.env.get(name), facts, dict(st.ghost)))
+            st.heap = {i: h.copy() for i, h in heap0.items()}
+            self.frame.env.clear()
+            self.frame.env.update(env0)
+            st.pc[:] = pc0
+            gh = dict(ghost0)
+            # per-call counters may advance; keep the larger ones
+            st.ghost = gh
+        (g1, v1, f1, gh1), (g2, v2, f2, gh2) = results
+        m = None
+        if v1 is not None and v2 is not None and v1.k in ('bytes', 'str') and v2.k == v1.k:
+            # factor the common prefix of two concatenations:  ite(c, p ++ x, p ++ y)  ==  p ++ ite(c, x, y)
+            from .solve import concat_leaves
+            la, lb = concat_leaves(v1.t), concat_leaves(v2.t)
+            k = 0
+            while k < len(la) and k < len(lb) and la[k].eq(lb[k]):
+                k += 1
+
+            def cat(xs):
+                return z3.Empty(SEQ) if not xs else (xs[0] if len(xs) == 1 else z3.Concat(*xs))
+            tail = z3.If(c, cat(la[k:]), cat(lb[k:]))
+            m = SV(v1.k, cat(la[:k] + [tail]), v1.x)
+        elif v1 is not None and v2 is not None:
+            m = self.merge_ite(c, v1, v2)
+        if m is None:
+            rollback()
+            return False
+        st.heap = heap0
+        self.frame.env[name] = m
+        for f in f1:
+            st.pc.append(z3.Implies(c, f))
+        for f in f2:
+            st.pc.append(z3.Implies(z3.Not(c), f))
+        return True
 
     def ex_FunctionDef(self, s):
         self.frame.env[s.name] = SV('func', FuncVal(node=s, closure=self.frame.env, owner=self.frame.cls,
@@ -294,6 +394,29 @@ class StmtMixin:
             self.exec_block(s.body)
             self.close_file(h, s)
             return
+        if isinstance(ce, ast.Call):
+            fv = self.ev(ce.func)
+            if fv.k == 'func' and fv.t.node is not None and isinstance(fv.t.node, ast.FunctionDef) and \
+                    any(ast.unparse(d).endswith('contextmanager') for d in fv.t.node.decorator_list):
+                args = [self.ev(a) for a in ce.args]
+                kw = {k.arg: self.ev(k.value) for k in ce.keywords}
+                f = fv.t
+                env = dict(f.closure or {})
+                env.update(self.bind(f.node, ([f.bound] if f.bound is not None else []) + args, kw, f))
+                fr = Frame(env, fn_key=self.contract_key(f), cls=f.owner, module=f.module)
+                fr.cm_body = s.body
+                if it.optional_vars is not None:
+                    raise Unsupported('with ... as x on a generator context manager')
+                self.st.frames.append(fr)
+                try:
+                    self.exec_block(f.node.body)
+                except ReturnSig:
+                    pass
+                finally:
+                    self.st.frames.pop()
+                if fr.cm_body is not None:
+                    raise Unsupported('context manager generator did not yield')
+                return
         cm = self.ev(ce)
         self.with_context(cm, it, s)
 
@@ -308,26 +431,41 @@ class StmtMixin:
 
     # ---------------------------------------------------------------- loops
     def loop_contract(self, node):
-        """loop contracts are keyed by the loop's ordinal inside the function under verification"""
+        """loop contracts are keyed by the loop's ordinal inside its function: `loops` for the function under verification,
+        `loops_in[<callee key>]` for loops of callees that are inlined into it"""
         c = self.cur_contract or {}
-        loops = c.get('loops')
+        fr = self.frame
+        if fr.fn_key == self.cur_key and len(self.st.frames) == 1:
+            loops = c.get('loops')
+        else:
+            loops = c.get('loops_in', {}).get(fr.fn_key)
         if not loops:
             return None
-        fr = self.frame
-        if fr.fn_key != self.cur_key:
-            return None
-        ordinal = self.loop_ordinals.get(id(node))
+        ordinal = self.loop_ordinal(node)
         if ordinal is None:
             return None
         if isinstance(loops, dict):
             return loops.get(ordinal)
         return loops[ordinal] if ordinal < len(loops) else None
 
+    def loop_ordinal(self, node):
+        if id(node) in self.loop_ordinals:
+            return self.loop_ordinals[id(node)]
+        fn = getattr(self.frame, 'fn_node', None)
+        if fn is None:
+            return None
+        from .verify import _loops_in_order
+        for k, n in enumerate(_loops_in_order(fn)):
+            self.loop_ordinals[id(n)] = k
+        return self.loop_ordinals.get(id(node))
+
     def inv_env(self):
         env = dict(self.frame.env)
         return env
 
     def check_invs(self, lc, kind, node, ordinal):
+        if kind == 'inv-init':
+            self.st.ghost[('loop_entry',)] = dict(self.frame.env)
         for nm, r in self.clauses(lc.get('inv', [])):
             self.oblige(f'{kind}[loop{ordinal}]#{nm}', self.truth(self.ev_spec(r, self.inv_env())), node, aux=True)
 
@@ -337,7 +475,15 @@ class StmtMixin:
 
     def havoc_loop(self, lc, body, extra_names=()):
         env = self.frame.env
+        for m in lc.get('havoc_lists', []):
+            # a python list that grows in the loop: from here on its contents are a sequence of symbolic length
+            v = env[m]
+            h = self.st.heap[v.t]
+            x = h.x if isinstance(h, HSeqList) else lc.get('list_elem', 'ref')
+            self.st.heap[v.t] = HSeqList(self.sym(m, SEQ), x)
         for m in list(assigned_names(body)) + list(extra_names):
+            if m in lc.get('havoc_lists', []):
+                continue
             if m in env:
                 if env[m].k in ('obj', 'list', 'dict', 'func', 'gen', 'cls', 'enum', 'super'):
                     del env[m]      # may refer to a different object after the loop: undefined for the rest of the path
@@ -393,7 +539,7 @@ class StmtMixin:
                 n += 1
             self.exec_block(s.orelse)
             return
-        ordinal = self.loop_ordinals[id(s)]
+        ordinal = self.loop_ordinal(s)
         self.check_invs(lc, 'inv-init', s, ordinal)
         self.havoc_loop(lc, s.body)
         self.assume_invs(lc)
@@ -417,6 +563,9 @@ class StmtMixin:
         it = self.ev(s.iter)
         if it.k == 'obj':
             it = self.iter_object(it, s)
+        if it.k == 'list' and isinstance(self.st.heap[it.t], HSeqList):
+            h = self.st.heap[it.t]
+            it = SV('seq', h.seq, h.x)
         if it.k in ('range', 'seq', 'gen'):
             return self.for_symbolic(s, it)
         items = self.iter_concrete(it)
@@ -441,7 +590,7 @@ class StmtMixin:
         lc = self.loop_contract(s)
         if lc is None:
             raise Unsupported(f'for loop over a symbolic collection without invariant (line {s.lineno})')
-        ordinal = self.loop_ordinals[id(s)]
+        ordinal = self.loop_ordinal(s)
         env = self.frame.env
         tnames = [n.id for n in ast.walk(s.target) if isinstance(n, ast.Name)]
         if it.k == 'range':
@@ -486,7 +635,7 @@ class StmtMixin:
                 x = self.sym('x', INT)
                 todo2 = self.sym('todo', SEQ)
                 self.assume(todo == z3.Concat(z3.Unit(x), todo2))
-                self.assign(s.target, SV('ref', x) if it.x == 'ref' else VI(x))
+                self.assign(s.target, VI(x) if it.x in (None, 'int') else SV('ref', x, it.x))
                 try:
                     self.exec_block(s.body)
                 except ContinueSig:
@@ -497,6 +646,9 @@ class StmtMixin:
                 self.st.ghost['__todo'] = SV('seq', todo2, it.x)
                 self.check_invs(lc, 'inv-keep', s, ordinal)
                 raise PathEnd('loop body verified')
+            # exit: nothing left to do (implied facts stated explicitly to spare the sequence solver)
+            self.assume(todo == z3.Empty(SEQ))
+            self.assume(done == xs)
             self.exec_block(s.orelse)
             return
         if it.k == 'gen':
